@@ -226,6 +226,12 @@ func (fr *frame) autoInvariants(b *ssa.BasicBlock, li *loopInfo) []autoInv {
 			ev := phi.Edges[pi]
 			if li.blocks[p] && b.Dominates(p) {
 				nBack++
+				if ev == ssa.Value(phi) {
+					continue
+				}
+				if inner, ok := ev.(*ssa.Phi); ok && phiMonotone(inner, phi, 0) {
+					continue
+				}
 				bo, ok := ev.(*ssa.BinOp)
 				if !ok || bo.Op != token.ADD || bo.X != phi {
 					stepOK = false
@@ -773,10 +779,16 @@ func (fr *frame) convert(x *ssa.Convert, st *State) {
 	case fIsB && tIsB && fb.Info()&types.IsInteger != 0 && tb.Info()&types.IsInteger != 0:
 		lo, hi, _ := intRange(x.Type())
 		flo, fhi, _ := intRange(x.X.Type())
-		if !(rangeWithin(flo, fhi, lo, hi)) {
+		if rangeWithin(flo, fhi, lo, hi) {
+			fr.vals[x] = v
+		} else {
+			// exact two's-complement conversion: reduce modulo 2^bits into [lo,hi]
 			fr.oblige("safe", "overflow", fr.nextAnchor("convert"), st, fmt.Sprintf("(and (<= %s %s) (<= %s %s))", lo, v.S, v.S, hi), "integer conversion out of range", nil)
+			mod := modulusOf(x.Type())
+			r := vc.freshConst(fr.prefix+"."+x.Name(), SInt)
+			vc.fact(fmt.Sprintf("(and (<= %s %s) (<= %s %s) (= (mod (- %s %s) %s) 0))", lo, r.S, r.S, hi, r.S, v.S, mod))
+			fr.vals[x] = r
 		}
-		fr.vals[x] = v
 	case fIsB && fb.Info()&types.IsString != 0 && isByteSlice(x.Type()):
 		// []byte(s): fresh backing array holding s
 		s := vc.freshConst(fr.prefix+"."+x.Name(), SV)
@@ -1074,4 +1086,41 @@ func (fr *frame) nameOfValue(v ssa.Value) string {
 		}
 	}
 	return ""
+}
+
+func modulusOf(t types.Type) string {
+	b := t.Underlying().(*types.Basic)
+	switch b.Kind() {
+	case types.Int8, types.Uint8:
+		return "256"
+	case types.Int16, types.Uint16:
+		return "65536"
+	case types.Int32, types.Uint32:
+		return "4294967296"
+	}
+	return "18446744073709551616"
+}
+
+// phiMonotone: every incoming value of inner is base itself, base + positive
+// constant, or another such phi (covers "continue" paths that leave a counter
+// unchanged and join before the latch).
+func phiMonotone(inner *ssa.Phi, base *ssa.Phi, depth int) bool {
+	if depth > 4 {
+		return false
+	}
+	for _, e := range inner.Edges {
+		if e == ssa.Value(base) {
+			continue
+		}
+		if bo, ok := e.(*ssa.BinOp); ok && bo.Op == token.ADD && bo.X == ssa.Value(base) {
+			if c, ok := bo.Y.(*ssa.Const); ok && c.Value != nil && c.Int64() > 0 {
+				continue
+			}
+		}
+		if p, ok := e.(*ssa.Phi); ok && p != inner && phiMonotone(p, base, depth+1) {
+			continue
+		}
+		return false
+	}
+	return true
 }
